@@ -30,6 +30,11 @@ def make_cases(ctx, n):
 
 
 NEAR_MISSES = [
+    # a complete definition followed by something that only LOOKS like a closed comment (or opens one that never closes)
+    'def e { return "x" weighted 1 } /*/', 'def e { return "x" weighted 1 } /*/ def b { return "y" weighted 1 }', 'def e { return "x" weighted 1 } /*/ junk = ; @',
+    'def e { return "x" weighted 1 } /*/*', 'def e { return "x" weighted 1 } /* / */ /*/', 'def e { return "x" weighted 1 } /**', 'def e { return "x" weighted 1 } /* *', 'def e { return "x" weighted 1 } /* * /',
+    'def e { return "x" weighted 1 } /*\n*\n/', 'def e { return "x" weighted 1 } //*/ /*', 'def e { /*/ return "x" weighted 1 }', 'def e { return "x" /*/ weighted 1 }', '/*/ def e { return "x" weighted 1 }',
+    'def e { return "x" weighted 1 } /* "*/" ', "def e { return 'x' weighted 1 } /*/ '*/",
     'def e { splitters: a, b, return "x" weighted 1 }',            # trailing comma in the field list
     'def e { splitters: a b return "x" weighted 1 }',              # missing comma
     'def e { splitters a return "x" weighted 1 }',                 # missing colon
